@@ -97,6 +97,22 @@ def judge_twin(name, seed, seq, fresh_envs=True):
         if outs[0] != outs[2]:
             which = [n for n, x, y in zip(('state', 'observation', 'reward', 'done'), outs[0], outs[2]) if x != y]
             return f'debug flag off changes the trajectory at operation {i} ({op} {a or ""}): {which} differ'
+    # an environment that has been USED (odd / even number of earlier draws) and is then given the seed behaves like a
+    # fresh one with that seed
+    for prior in (1, 2):
+        used = envs.slot(name, ('used', prior), seed + 77)
+        used.reset()
+        acts0 = list(used.action_space.actions)
+        for i in range(prior):
+            used.step(acts0[i % len(acts0)])
+        used.observation
+        used.set_seed(seed)
+        fresh = envs.fresh(name, seed) if fresh_envs else envs.slot(name, 1, seed)
+        tu, tf = envs.run_actions(used, [Action[a] for a in seq]), envs.run_actions(fresh, [Action[a] for a in seq])
+        if tu != tf:
+            k = next(i for i, (x, y) in enumerate(zip(tu, tf)) if x != y)
+            return (f'an environment used before ({prior} steps) and then given the seed diverges from a fresh environment with '
+                    f'the same seed at operation {k}')
     # sparse reads: the observation is read only at the very end (eager observation generation in one of the variants
     # would shift the random stream of the dynamics)
     if fresh_envs:
@@ -185,6 +201,9 @@ def _twin_work(job):
 
 
 # ---------------------------------------------------------------- 2: interleavings
+OTHER_CONFIG = {'synthetic': 'dynamic_obstacles.7x7', 'teleport.5x5': 'teleport.7x7', 'dynamic_obstacles.5x5': 'dynamic_obstacles.7x7',
+                'memory_four_rooms.7x7': 'memory_four_rooms.9x9', 'dynamic_obstacles.7x7': 'dynamic_obstacles.5x5'}
+
 NOISE = {
     'numpy': [lambda: np.random.random(), lambda: gvrng.reset_gv_rng(7)],
     'python': [lambda: pyrandom.random(), lambda: gvrng.get_gv_rng().random()],
@@ -208,12 +227,16 @@ def judge_interleaving(name, seed, merge, noise, acts, fresh_envs=True):
         solo_env = envs.slot(name, 'solo', seed)
     reset_gv_debug(True)
     solo = [f() for f in ops_for(solo_env)]
+    # the unseeded environment comes from a DIFFERENT configuration (another layout with the same stochastic components),
+    # and reads its observation: anything shared between environments at module / class level is disturbed by it
+    other = OTHER_CONFIG.get(name, name)
     if fresh_envs:
-        A, B, U = envs.fresh(name, seed), envs.fresh(name, seed), envs.fresh(name, None)
+        A, B, U = envs.fresh(name, seed), envs.fresh(name, seed), envs.fresh(other, None)
     else:
-        A, B, U = envs.slot(name, 'A', seed), envs.slot(name, 'B', seed), envs.slot(name, 'U', None)
+        A, B, U = envs.slot(name, 'A', seed), envs.slot(name, 'B', seed), envs.slot(other, 'U', None)
     oA, oB = ops_for(A), ops_for(B)
-    oU = [lambda: U.reset(), lambda: U.step(a1)]
+    ua = list(U.action_space.actions)[0]
+    oU = [lambda: (U.reset(), U.observation), lambda: (U.step(ua), U.observation)]
     hist = {0: [], 1: []}
     try:
         for owner, i in merge:
@@ -363,17 +386,21 @@ def run(rep, tier, seed):
     rep.part('twin_runs', configs=[f'{n} depth {d}' for n, d in twin_cfg], seeds=[int(x) for x in twin_seeds], sequences=tn, operations=tops,
              variants='env1 vs env2 (same seed) vs env3 (debug flag off); global-RNG tripwire after every operation')
     # interleavings
-    inter_cfg = [('synthetic', ['MOVE_FORWARD', 'TURN_LEFT']), ('teleport.5x5', ['MOVE_FORWARD', 'MOVE_RIGHT'])]
+    inter_cfg = [('synthetic', ['MOVE_FORWARD', 'TURN_LEFT']), ('teleport.5x5', ['MOVE_FORWARD', 'MOVE_RIGHT']),
+                 ('dynamic_obstacles.7x7', ['MOVE_FORWARD', 'TURN_LEFT'])]
     if tier != 'quick':
         inter_cfg += [('dynamic_obstacles.5x5', ['MOVE_FORWARD', 'TURN_RIGHT']), ('memory_four_rooms.7x7', ['TURN_LEFT', 'MOVE_FORWARD'])]
-    ijobs = []
-    for (name, acts), noise in zip(inter_cfg * 3, ['numpy', 'python', 'debug'] * len(inter_cfg)):
-        for lo in range(32):
-            ijobs.append((name, seeds[0], noise, acts, lo, 32))
+    acts_of = dict(inter_cfg)
     if tier == 'quick':
-        ijobs = [j for j in ijobs if (j[0], j[2]) in (('synthetic', 'numpy'), ('teleport.5x5', 'python'), ('synthetic', 'debug'))]
+        combos = [('synthetic', 'numpy'), ('teleport.5x5', 'python'), ('dynamic_obstacles.7x7', 'debug')]
+    else:
+        combos = [(c, nz) for c in acts_of for nz in ('numpy', 'python', 'debug')]
+    ijobs = []
+    for name, noise in combos:
+        for lo in range(32):
+            ijobs.append((name, seeds[0], noise, acts_of[name], lo, 32))
     inn = iops = 0
-    for n, ops, fl in pmap(_inter_work, ijobs):
+    for n, ops, fl in pmap(_inter_work, ijobs, fresh=True):
         inn += n
         iops += ops
         fails.extend(fl)
